@@ -8,7 +8,7 @@
     22 i j concat | 23 i idx remove | 24 i idx swap_remove | 25 i j flatten2 | 26 i n unflatten
     27 i native | 28 i tuple | 29 i to_vec | 30 i vec_to_arr | 31 i to_box | 32 i box_into_vec
     33 i box_into_slice | 34 i slice_to_box | 35 i vec_to_box | 36 i box_iter | 37 i unbox
-    38 i observe
+    38 i observe | 39 i n try_collect (Vec -> array of length n through try_from_iter) | 40 i n try_collect_boxed
    observables, per op: valid(1/0); d, dropped ids sorted; o, observed ids in order;
      k, then for each of the k objects appended to the pool: kind len ids...
      (kind: 1 array, 2 iterator, 3 boxed array, 4 Vec, 5 boxed slice, 6 element)
@@ -60,6 +60,8 @@ Fixpoint decode_pops (fuel : nat) (l : list Z) : list pop :=
     | 36 :: i :: r => PBoxIter (znat i) :: decode_pops f r
     | 37 :: i :: r => PUnbox (znat i) :: decode_pops f r
     | 38 :: i :: r => PObserve (znat i) :: decode_pops f r
+    | 39 :: i :: n :: r => PTryCollect (znat i) (znat n) :: decode_pops f r
+    | 40 :: i :: n :: r => PTryCollectBoxed (znat i) (znat n) :: decode_pops f r
     | _ => []
     end
   end.
